@@ -187,3 +187,14 @@ package outbound
 //@   at call MarkAliveForReloadFallback#1 assert a0 != nil && a1 == nt
 //@   loop 1
 //@     invariant calls("MustGetAliveDialerSet") == $idx
+
+// C15 (a policy switch reaches every network type): all eight slots of the set array are looked at - a slot
+// that repeats an earlier set (the TCP-DNS aliases) is skipped, it does not end the walk.
+//@ func uniqueAliveDialerSets
+//@   anchorsonly
+//@   nonilcheck
+//@   dyncalls noeffect
+//@   modifies *
+//@   at call builtin:append#1 assert a0 == sets && a1[0] == set && set != nil
+//@   loop 1
+//@     exit $idx == 8
